@@ -48,16 +48,10 @@ def showOutcome : Outcome → String
   | .mismatch => "mismatch"
   | .success sig eb => s!"ok.{if sig == 0 then "nil" else toString sig}.{eb}"
 
-/-- B is delivered by concurrent goroutines: the recorded set is order independent unless two
-    different messages of B have the same sender (then the model does not predict). -/
-def orderDependent (B : List Msg) : Bool :=
-  B.any fun m => B.any fun m' => m.sender == m'.sender && m != m'
-
 def model (line : String) : String :=
   match parseCase line with
   | none => "bad-op"
   | some c =>
-    if orderDependent c.B then "SKIP" else
     let r := scenario .fixed c.p c.A c.B
     s!"{showOutcome r.1}/{r.2}"
 
